@@ -286,9 +286,24 @@ def run(ctx):
                 c.fail("expression-defect:%s:value" % node.op, "building the problem: %s evaluates differently from its formula" % node.op,
                        got=got, want=want)
                 raise S.Abort()
+            if mutate_used[0]:
+                # the operands of this node are not used again: an in-place update of them afterwards is none of the written
+                # problem's business (binary operators, max/min/abs/sum return objects that do not alias their operands)
+                import operator
+                for k_ in kids:
+                    if k_ is not r and type(k_).__name__ == "_function":
+                        try:
+                            operator.iadd(k_, 1.0)
+                            ctx.count("build.operand-updated-in-place-after-use")
+                        except Exception:
+                            pass
         return hook
 
+    mutate_used = [False]
+
     def build_real(c, P, rng):
+        mutate_used[0] = rng.random() < 0.3
+        c.desc["operands-updated-after-use"] = mutate_used[0]
         vars_ = P["vars"]
         rv = {v.idx: M.variable(v.n, v.name) for v in vars_}
         hook = precheck(c, rv, vars_, rng)
